@@ -10,7 +10,7 @@ pub fn prop() -> Prop {
     Prop {
         id: "C10",
         level: "model_checking",
-        rule: "all streams of <=3 (thorough <=4) values over a 28-text universe (incl. unequal nested objects that differ only in where a trailing member sits: {\"a\":{},\"b\":1} / {\"a\":{\"b\":1}}) with equal-by-value spellings (0 0.0 0e0, [0,\"x\"] [0.0,\"x\"], 1 1.0 1e0 10e-1, \"a\" \"\\u0061\", 1.5 15e-1, 100 1e2, [1,{\"a\":1}] [1.0,{\"a\":1e0}], {\"a\":1} {\"a\":1.0}) and near misses (\"1\", [1], [1.5], null, true), and <=5 (thorough <=6) over an 8-text core; the same through one and two selections over all streams of <=4 (thorough <=5) records where the selected member is present, null or absent; growth families of 3..57 distinct values each arriving in three spellings; non-trivial = the stream holds a duplicate under `=` in a different spelling, or an absent-versus-null pair; distinct by construction",
+        rule: "all streams of <=3 (thorough <=4) values over a 28-text universe (incl. unequal nested objects that differ only in where a trailing member sits: {\"a\":{},\"b\":1} / {\"a\":{\"b\":1}}) with equal-by-value spellings (0 0.0 0e0, [0,\"x\"] [0.0,\"x\"], 1 1.0 1e0 10e-1, \"a\" \"\\u0061\", 1.5 15e-1, 100 1e2, [1,{\"a\":1}] [1.0,{\"a\":1e0}], {\"a\":1} {\"a\":1.0}) and near misses (\"1\", [1], [1.5], null, true), and <=5 (thorough <=7) over an 8-text core; the same through one and two selections over all streams of <=4 (thorough <=6) records where the selected member is present, null or absent; growth families of 3..1000 distinct values each arriving in three spellings; non-trivial = the stream holds a duplicate under `=` in a different spelling, or an absent-versus-null pair; distinct by construction",
         explanation: "the `=` table of the implementation is obtained exhaustively for the universe (one run per ordered pair) and checked against reference equality, symmetry and reflexivity; the output with --unique must be the output without it minus every row equal (under that table, selection by selection, absent only equal to absent) to an earlier row",
         assumptions: COMMON_ASSUMPTIONS.to_vec(),
         guards: vec!["duplicate-in-other-spelling-removed", "near-miss-kept", "absent-vs-null-kept", "nested-duplicate-removed", "table-growth", "eq-table-complete"],
@@ -228,7 +228,7 @@ fn run(ctx: &mut Ctx) {
     ctx.level_done("equality-table");
     let (full_len, core_len, rec_len) = match ctx.tier {
         Tier::Quick => (3usize, 5usize, 4usize),
-        Tier::Thorough => (4, 6, 5),
+        Tier::Thorough => (4, 7, 6),
     };
     // (a) no selection: all streams over the universe / the core
     for len in 0..=core_len {
@@ -271,7 +271,7 @@ fn run(ctx: &mut Ctx) {
         ctx.level_done(&format!("record-streams-of-{len}-through-selections"));
     }
     // (c) growth families: n distinct integers, each arriving as `i`, `i.0`, `ie0` in several interleavings
-    for n in [3usize, 7, 14, 28, 57] {
+    for n in [3usize, 7, 14, 28, 57, 113, 300, 1000] {
         if !ctx.mine() {
             continue;
         }
